@@ -13,7 +13,7 @@ A unit template (contracts/<unit>.rs.in) is ordinary Rust/Verus text with direct
   //@ end
 
 Signature and body are copied verbatim from the working tree, then the documented rewrite rules
-(R1 err-text, R2 attributes/visibility, R6 let-chains, R7 named return) are applied by pattern and
+(R1 err-text, R2 attributes/visibility, R6 let-chains, R7 named return, R8 Self::Item expansion) are applied by pattern and
 counted.  Everything the template adds is ghost (requires/ensures/invariant/decreases/proof).
 A directive whose anchor cannot be found raises AnchorError => the unit is 'undecided'.
 """
@@ -321,6 +321,9 @@ def build_unit(template, repo, out_path, contracts_dir=None, vacuity=False):
                 if dm and not re.search(r"\b(struct|enum|fn|impl|trait)\b", mask(pre[dm[-1].end():])):
                     text = dm[-1].group(0) + "\n" + text
             out.append(f"// >>> item {rel} :: {what}")
+            for o in opts:
+                if o.startswith("attr="):
+                    out.append(o[5:])  # verifier attribute (ghost): e.g. #[verifier::reject_recursive_types(D)]
             out.append("pub " + text)
             out.append("// <<<")
             i += 1
@@ -366,6 +369,13 @@ def build_unit(template, repo, out_path, contracts_dir=None, vacuity=False):
         body = rule_R2(body, local)
         body = rule_R1(body, local)
         body = rule_R6(body, local)
+        if "Self::Item" in sig:
+            # R8: the associated type is replaced by its definition in the same impl block
+            tm = re.search(r"\btype\s+Item\s*=\s*([^;]+);", m[cs:ce])
+            if not tm:
+                raise AnchorError("Self::Item used but the impl has no `type Item = ...;`")
+            sig = sig.replace("Self::Item", src[cs:ce][tm.start(1):tm.end(1)].strip())
+            local["R8"] = local.get("R8", 0) + 1
         if opts.get("ret"):
             sig = rule_R7(sig, opts["ret"], local)
         if opts.get("as"):
